@@ -83,17 +83,41 @@ def run_case(case):
         odb = cls(fs, os.path.join(root, "cache"), type=[case.get("link", "copy")])
         for c in case["avail"]:
             odb.add_bytes(OID[c], CONTENTS[c])
-        new = md5(build(srcd, fs))
+        lazy = case.get("form") == "lazy"
+        top = wsd
+        if lazy:
+            # the target is ONE unloaded entry `data` pointing at a directory object in the cache; compare() expands it from
+            # object storage.  The universe's paths live below ws/data; the entry `data` itself is not part of the universe.
+            from dvc_data.hashfile.build import build as obuild
+            from dvc_data.hashfile.meta import Meta
+            from dvc_data.index import DataIndex, DataIndexEntry
+
+            wsd = os.path.join(top, "data")
+            shutil.move(top, top + ".tmp")
+            os.makedirs(top)
+            shutil.move(top + ".tmp", wsd)
+            _staging, _meta, obj = obuild(odb, srcd, fs, "md5")
+            odb.add(obj.path, obj.fs, obj.oid)
+            new = DataIndex()
+            new[("data",)] = DataIndexEntry(key=("data",), meta=Meta(isdir=True), hash_info=obj.hash_info)
+        else:
+            new = md5(build(srcd, fs))
         new.storage_map.add_cache(ObjectStorage((), odb))
         shutil.rmtree(srcd)  # the target's data is available from its cache storage only
 
         def lists(diff):
-            key = lambda e: REV.get("/".join(e.key), "?" + "/".join(e.key))  # noqa: E731
-            return {"files_delete": [key(e) for e in diff.files_delete], "dirs_delete": [key(e) for e in diff.dirs_delete],
-                    "dirs_create": [key(e) for e in diff.dirs_create], "files_create": [key(e) for e in diff.files_create],
-                    "files_chmod": [key(e) for e in diff.files_chmod]}
+            def key(e):
+                k = e.key[1:] if lazy else e.key
+                return REV.get("/".join(k), "?" + "/".join(k))
 
-        old = md5(build(wsd, fs)) if case.get("hashed", True) else build(wsd, fs)
+            def keys(lst):
+                return [key(e) for e in lst if not (lazy and e.key == ("data",))]
+
+            return {"files_delete": keys(diff.files_delete), "dirs_delete": keys(diff.dirs_delete),
+                    "dirs_create": keys(diff.dirs_create), "files_create": keys(diff.files_create),
+                    "files_chmod": keys(diff.files_chmod)}
+
+        old = md5(build(top, fs)) if case.get("hashed", True) else build(top, fs)
         diff = compare(old, new, delete=case["delete"])
         l1 = lists(diff)
         errs = []
@@ -104,13 +128,13 @@ def run_case(case):
 
         crash = None
         try:
-            apply(diff, wsd, fs, onerror=onerror, storage="cache")
+            apply(diff, top, fs, onerror=onerror, storage="cache")
         except Exception as exc:  # noqa: BLE001 - apply() must not raise; recorded as an observation
             crash = type(exc).__name__
-        after = walk(wsd)
+        after = walk(wsd) if os.path.isdir(wsd) else {}
         new2 = new
         try:
-            l2 = lists(compare(md5(build(wsd, fs)), new2, delete=case["delete"]))
+            l2 = lists(compare(md5(build(top, fs)), new2, delete=case["delete"]))
         except Exception as exc:  # noqa: BLE001
             l2 = {"files_delete": ["!" + type(exc).__name__], "dirs_delete": [], "dirs_create": [], "files_create": [], "files_chmod": []}
         leftovers = [k for k in after if k.startswith("?")]
@@ -180,7 +204,13 @@ def make_cases(trees, rng, n, exhaustive=False):
     for i, (w, t) in enumerate(pairs):
         need = sorted({nd["c"] for nd in t.values() if nd["k"] == "f"})
         avail = need if i % 5 else rng.sample(["c1", "c2"], rng.randrange(0, 3))
-        cases.append({"id": i, "ws": w, "tgt": t, "avail": sorted(avail), "delete": i % 4 != 3, "hashed": i % 3 != 2,
+        form = "lazy" if i % 5 == 2 else "explicit"
+        if form == "lazy":
+            # a directory object lists files only: the directories of the target are those its files need
+            # (nor does it carry the executable bit)
+            t = {p: {**nd, "x": False} for p, nd in t.items()
+                 if nd["k"] == "f" or any(q.startswith(p + "/") and t[q]["k"] == "f" for q in t)}
+        cases.append({"id": i, "ws": w, "tgt": t, "avail": sorted(avail), "delete": i % 4 != 3, "hashed": i % 3 != 2, "form": form,
                       "cls": ["local", "generic"][i % 2], "link": ["copy", "hardlink", "symlink"][i % 3] if i % 7 == 0 else "copy"})
     # prior workspaces holding dangling symbolic links (links whose cache object is gone)
     base = len(cases)
